@@ -9,7 +9,7 @@ from ..absval import Lin, Undecided, eval_expr, linform, truth_table
 from ..cfg import CFG, ENTRY
 from ..core import (alpha, AnalysisError, call_name, dotted, is_const, local_defs, norm, origin, parent_map,
                     walk_local, kwarg)
-from ..facts import guards_of, returns_of, enclosing_loops, assigned_subscripts
+from ..facts import param_default, guards_of, returns_of, enclosing_loops, assigned_subscripts
 from ..rules import walk as W
 
 SR = "synkit/CRN/Petri/structure.py"
@@ -224,7 +224,8 @@ def enumeration(rep):
         ns = [nm for nm, xs in defs.items() for x in xs if x.kind == "assign" and LABELS and norm(x.value) in (f"len({LABELS})", f"len({ORDER})")]
         NS = ns[0] if ns else None
         ms = [d for d in defs.get("max_size", []) if d.kind == "assign"]
-        okm = bool(ms) and NS is not None and norm(ms[0].value) == NS and any(norm(t) == "max_size is None" and s_ for t, s_ in guards_of(pm, ms[0].stmt, fi.node))
+        dv_ = param_default(fi.node, "max_size")
+        okm = len(ms) == 1 and NS is not None and dv_ is not None and norm(dv_) == NS
         rep.ob("O20.2", "ENUM", fi, okm, alpha(ms[0].stmt, fi.node) if ms else "max_size", "by default all sizes up to the number of species are enumerated")
         comb = [l for l in loops if isinstance(l.iter, ast.Call) and call_name(l.iter) == "combinations"]
         okc = bool(comb) and NS is not None and norm(comb[0].iter.args[1]) == norm(size_loop[0].target) \
@@ -371,14 +372,28 @@ def build_net(rep):
     at = [c for c in walk_local(el[0]) if isinstance(c, ast.Call) and norm(c.func) == f"{NETV}.add_transition"]
     rep.need("R15", len(at), 1, "add_transition in build_petri_net_from_flow")
     a_ = at[0].args
-    PRE_S, POST_T = norm(a_[1]), norm(a_[2])
     ok = len(a_) == 3 and norm(origin(defs, a_[0])) == eid
     rep.ob("O20.4", "R15", fi, ok, "net.add_transition(t_id, pre + supply, post + target)", "the transition is registered with (pre + supply, post + target)")
     w = {norm(t): (v_, st) for t, v_, st in assigned_subscripts(el[0])}
-    ones_pre = [k for k, (v_, _) in w.items() if k.startswith(f"{PRE_S}[") and is_const(v_, 1)]
-    ones_post = [k for k, (v_, _) in w.items() if k.startswith(f"{POST_T}[") and is_const(v_, 1)]
-    VE = ones_pre[0][len(PRE_S) + 1:-1] if len(ones_pre) == 1 else None
-    VET = ones_post[0][len(POST_T) + 1:-1] if len(ones_post) == 1 else None
+
+    def extended(e):
+        """(base dict expression, {extra key text: value}) for `x = dict(base); x[k] = v` and for `{**base, k: v}`"""
+        if isinstance(e, ast.Dict) and sum(1 for k_ in e.keys if k_ is None) == 1:
+            base = [v_ for k_, v_ in zip(e.keys, e.values) if k_ is None][0]
+            return base, {norm(k_): v_ for k_, v_ in zip(e.keys, e.values) if k_ is not None}
+        if isinstance(e, ast.Name):
+            src = origin(defs, e)
+            mb = pmatch("dict($$b)", src) or pmatch("$$b.copy()", src) or pmatch("{**$$b}", src)
+            if mb is not None:
+                base = src.args[0] if isinstance(src, ast.Call) and src.args else (src.func.value if isinstance(src, ast.Call) else src.values[0])
+                return base, {k[len(e.id) + 1:-1]: v_ for k, (v_, _) in w.items() if k.startswith(f"{e.id}[")}
+        return None, {}
+    pre_b, pre_x = extended(a_[1]) if len(a_) == 3 else (None, {})
+    post_b, post_x = extended(a_[2]) if len(a_) == 3 else (None, {})
+    ones_pre = [k for k, v_ in pre_x.items() if is_const(v_, 1)]
+    ones_post = [k for k, v_ in post_x.items() if is_const(v_, 1)]
+    VE = ones_pre[0] if len(ones_pre) == 1 and len(pre_x) == 1 else None
+    VET = ones_post[0] if len(ones_post) == 1 and len(post_x) == 1 else None
     ok = VE is not None and VET is not None and VE != VET and bool(pfind(f"{NETV}.add_place({VE})", el[0])) and bool(pfind(f"{NETV}.add_place({VET})", el[0])) \
         and eid in norm(origin(defs, ast.Name(id=VE, ctx=ast.Load()))) and eid in norm(origin(defs, ast.Name(id=VET, ctx=ast.Load()))) \
         and norm(origin(defs, ast.Name(id=VE, ctx=ast.Load()))) != norm(origin(defs, ast.Name(id=VET, ctx=ast.Load())))
@@ -388,12 +403,9 @@ def build_net(rep):
     rep.ob("O20.4", "R15", fi, ok, "M0[ve] = fval; MT[ve_t] = fval", "supply place starts with flow(e) tokens, target place must end with flow(e) tokens (each reaction fires exactly flow(e) times)")
     fv = origin(defs, m0w[0]) if m0w else None
     rep.ob("O20.4", "R15", fi, fv is not None and norm(fv).replace(" ", "") == f"int(self.flow.get({eid},0))", fv if fv is not None else "fval", "the token count is the prescribed flow of that reaction")
-    d1 = origin(defs, a_[1])
-    d2 = origin(defs, a_[2])
-    p1, p2 = pmatch("dict($p)", d1), pmatch("dict($p)", d2)
-    rep.ob("O20.4", "R15", fi, p1 is not None and p2 is not None, "dict(pre) / dict(post)", "supply/target places extend copies of the species pre/post sets")
-    pre = origin(defs, ast.Name(id=p1["p"], ctx=ast.Load())) if p1 else None
-    post = origin(defs, ast.Name(id=p2["p"], ctx=ast.Load())) if p2 else None
+    rep.ob("O20.4", "R15", fi, pre_b is not None and post_b is not None, "dict(pre) / dict(post)", "supply/target places extend copies of the species pre/post sets")
+    pre = origin(defs, pre_b) if pre_b is not None else None
+    post = origin(defs, post_b) if post_b is not None else None
     ok = pre is not None and post is not None and pmatch(f"{{$v: int($w) for $v, $w in {tail}.items() if int($w) > 0}}", pre) is not None \
         and pmatch(f"{{$v: int($w) for $v, $w in {head}.items() if int($w) > 0}}", post) is not None
     rep.ob("O20.4", "R15", fi, ok, "pre <- tail, post <- head", "reactants form the pre-set and products the post-set of the transition")
@@ -416,9 +428,10 @@ def bfs(rep):
         rep.ob("O20.4", "DOM", fi, ok, f"net.fire(marking, tid) under {len(gs)} guard(s)",
                "a transition is fired only where it is enabled in the same marking (no species count can go negative)", {"guards": [g for g, _ in gs]}, node=c)
     MK, TID = (norm(a) for a in fires[0].args[:2])
-    NEWM = [nm for nm, ds in defs.items() for d_ in ds if d_.value is fires[0]]
-    NEWT = [nm for nm, ds in defs.items() for d_ in ds if d_.kind == "assign" and NEWM and pmatch(f"{NETV}.marking_to_tuple({NEWM[0]})", d_.value) is not None]
-    rep.ob("O20.4", "DOM", fi, len(NEWM) == 1 and len(NEWT) == 1, "new_tuple = net.marking_to_tuple(net.fire(...))", "the compared marking is the one produced by the firing")
+    # the successor tuple: marking_to_tuple applied to the result of the firing (directly or through a local)
+    NEWT = [nm for nm, ds in defs.items() for d_ in ds if d_.kind == "assign" and pmatch(f"{NETV}.marking_to_tuple($$m)", d_.value) is not None
+            and origin(defs, d_.value.args[0]) is fires[0]]
+    rep.ob("O20.4", "DOM", fi, len(NEWT) == 1, "new_tuple = net.marking_to_tuple(net.fire(...))", "the compared marking is the one produced by the firing")
     if not NEWT:
         return
     NT = NEWT[0]
@@ -465,7 +478,10 @@ def bfs(rep):
         vm = [m for m in vm if m]
         okv = bool(vm) and bool(pfind(f"{vm[0]['vis']}.add({NT})", fi.node))
         rep.ob("O20.4", "DOM", fi, okv, "q.append under `new not in visited`", "a marking is queued once (visited set)", node=c)
-        rep.ob("O20.4", "DOM", fi, SEQ is not None and norm(c.args[0]).replace(" ", "") == f"({NT},{SEQ}+[{TID}])", alpha(c, fi.node), "queued with the sequence that reaches it", node=c)
+        qa = c.args[0]
+        okq = SEQ is not None and isinstance(qa, ast.Tuple) and len(qa.elts) == 2 and norm(qa.elts[0]) == NT \
+            and norm(origin(defs, qa.elts[1])).replace(" ", "") == f"{SEQ}+[{TID}]"
+        rep.ob("O20.4", "DOM", fi, okq, alpha(c, fi.node), "queued with the sequence that reaches it", node=c)
     rep.ob("O20.4", "DOM", fi, bool(pops) and call_name(pops[0]) == "popleft", "q.popleft()" if pops and call_name(pops[0]) == "popleft" else "q.pop()", "breadth-first order (FIFO)")
     seed = [c for c in walk_local(fi.node) if Q and isinstance(c, ast.Call) and norm(c.func) == f"{Q}.append" and not enclosing_loops(pm, c, fi.node)]
     rep.ob("O20.4", "DOM", fi, len(seed) == 1 and norm(seed[0].args[0]).replace(" ", "") == f"({ST[0]},[])", alpha(seed[0], fi.node) if seed else "q.append((start, []))", "the search starts from the initial marking with the empty sequence")
@@ -497,12 +513,25 @@ def bfs(rep):
     tl = [l for l in walk_local(fi.node) if isinstance(l, ast.For) and norm(l.iter) == f"{NETV}.transitions"]
     rep.ob("O20.4", "DOM", fi, len(tl) == 1 and norm(tl[0].target) == TID, "for tid in net.transitions", "every transition is tried in every explored marking")
     mk = origin(defs, ast.Name(id=MK, ctx=ast.Load()))
-    ok = MTUP is not None and pmatch(f"{{$p: {MTUP}[{NETV}._place_index[$p]] for $p in {NETV}._place_index}}", mk) is not None
+    ok = MTUP is not None and (pmatch(f"{{$p: {MTUP}[{NETV}._place_index[$p]] for $p in {NETV}._place_index}}", mk) is not None
+                               or pmatch(f"{{$p: {MTUP}[$i] for $p, $i in {NETV}._place_index.items()}}", mk) is not None)
     rep.ob("O20.4", "DOM", fi, ok, alpha(mk, fi.node),
            "the explored marking is decoded with the same place order that encodes it")
     mt = rep.f(NET, "PetriNet.marking_to_tuple")
     b = pall([f"for $p, $i in self._place_index.items():\n    $arr[$i] = int({mt.params[1]}.get($p, 0))", "return tuple($arr)"], mt.node)
-    rep.ob("O20.4", "DOM", mt, b is not None, "arr[idx] = int(m.get(p, 0))", "markings are encoded by the fixed place index")
+    ok_enc = b is not None
+    if not ok_enc:
+        # positional form: iterate the index map itself - valid when index == insertion position (every write is idx[p] = len(idx), nothing is removed)
+        mrets = returns_of(mt.node)
+        src_ = origin(local_defs(mt.node), mrets[-1].value) if mrets else None
+        pos = src_ is not None and (pmatch(f"tuple((int({mt.params[1]}.get($p, 0)) for $p in self._place_index))", src_) is not None
+                                    or pmatch(f"tuple([int({mt.params[1]}.get($p, 0)) for $p in self._place_index])", src_) is not None)
+        cls_ = rep.repo.cls(NET, "PetriNet")
+        writes_ = [(t_, v_) for m_ in cls_.body if isinstance(m_, ast.FunctionDef) for t_, v_, st_ in assigned_subscripts(m_) if norm(t_.value) == "self._place_index"]
+        removes_ = [n_ for n_ in ast.walk(cls_) if (isinstance(n_, ast.Delete) and any("self._place_index" in norm(t_) for t_ in n_.targets))
+                    or (isinstance(n_, ast.Call) and isinstance(n_.func, ast.Attribute) and norm(n_.func.value) == "self._place_index" and n_.func.attr in ("pop", "popitem", "clear", "update", "setdefault"))]
+        ok_enc = bool(pos and writes_ and all(norm(v_) == "len(self._place_index)" for t_, v_ in writes_) and not removes_)
+    rep.ob("O20.4", "DOM", mt, ok_enc, "arr[idx] = int(m.get(p, 0))", "markings are encoded by the fixed place index")
 
 
 MUTANTS = [
